@@ -213,7 +213,18 @@ theorem C18_info_is_parse_invoke (ctx : Ctx) (fn : Fn) (st : St) (s : Nat) (info
                     simp only [hi, if_true, Option.some.injEq] at h
                     exact ⟨params, w, rfl, h.symm⟩
 
+/-- "constructors backed by distinct functions receive distinct IDs, and the same function always the same ID": the ID
+    reported for an accepted Provide is that of the function given, whatever the container, scope and options
+    (`dot.CtorID` is the function's code pointer: the tie is the generated-source mode M2, where functions are distinct) -/
+theorem C18_ids_identify_functions (ctx ctx' : Ctx) (fn fn' : Fn) (st st' : St) (i i' s s' : Nat) (o o' : ProvideOpts)
+    (inf inf' : InfoOut) (h : (apiProvide ctx fn st i s o).2.info = some inf)
+    (h' : (apiProvide ctx' fn' st' i' s' o').2.info = some inf') : inf.id = inf'.id ↔ fn.id = fn'.id := by
+  obtain ⟨_, _, _, _, _, _, _, _, e⟩ := C18_info_is_parse_provide ctx fn st i s o inf h
+  obtain ⟨_, _, _, _, _, _, _, _, e'⟩ := C18_info_is_parse_provide ctx' fn' st' i' s' o' inf' h'
+  rw [e, e']
+
 #print axioms C18_single_entry
+#print axioms C18_ids_identify_functions
 #print axioms C18_info_is_parse_provide
 #print axioms C18_rejected_untouched_provide
 #print axioms C18_info_is_parse_invoke
